@@ -130,8 +130,9 @@ func (s *Session) submissionPrepare(msgMeta *module.MsgMetadata, header *textpro
 		_, err := parseMessageDateTime(dateHdr)
 		if err != nil {
 			return &exterrors.SMTPError{
-				Code:    554,
-				Message: "Malformed Date header",
+				Code:         554,
+				EnhancedCode: exterrors.EnhancedCode{5, 6, 0},
+				Message:      "Malformed Date header",
 				Misc: map[string]interface{}{
 					"modifier": "submission_prepare",
 					"date":     dateHdr,
